@@ -127,6 +127,11 @@ pub fn judge_kind(full: &[TtWrite], cut: &Out, stop_cut: bool) -> Option<String>
             ));
         }
     }
+    if let (true, Some((at_cut, at_end))) = (stop_cut, cut.cache_fp) {
+        if at_cut != at_end {
+            return Some(format!("the cache changed after the search had been cut: {} entries at the cut, {} at the end (fingerprints differ)", at_cut.0, at_end.0));
+        }
+    }
     for (n, w) in cut.writes.iter().enumerate() {
         if aborted(w) {
             return Some(format!("cache write #{n} happens after the search was cut: {}", describe(w)));
